@@ -74,6 +74,9 @@ def events_of(ix, cls, owner, fn, depth, seen):
         if f == 'self._validate_calibration_params':
             out.append(('validate_calib',))
             return
+        if f == 'check_y_valid_values_for_pairs':
+            out.append(('labels', ast.unparse(call.args[0]) if call.args else ''))
+            return
         # self.m(...) or Base.m(self, ...)
         target = None
         if isinstance(call.func, ast.Attribute) and isinstance(call.func.value, ast.Name):
@@ -117,8 +120,26 @@ def events_of(ix, cls, owner, fn, depth, seen):
     return out
 
 
+def check_input_checks_pair_labels(ix):
+    """does `check_input` hand the labels of pairs to `check_y_valid_values_for_pairs` (guarded only by
+    `y is not None and input_data.shape[1] == 2`, inside the 'tuples' branch)?"""
+    fn = ix.funcs.get(('_util.py', 'check_input'))
+    if fn is None:
+        raise Unsupported('_util.check_input not found')
+    for node in ast.walk(fn):
+        if isinstance(node, ast.If) and ast.unparse(node.test) == "type_of_inputs == 'tuples'":
+            for inner in node.body:
+                if isinstance(inner, ast.If) and ast.unparse(inner.test) == 'y is not None and input_data.shape[1] == 2':
+                    for st in inner.body:
+                        if isinstance(st, ast.Expr) and isinstance(st.value, ast.Call) and \
+                                ast.unparse(st.value) == 'check_y_valid_values_for_pairs(y)':
+                            return True
+    return False
+
+
 def method_table(ix, classes):
     rows = []
+    via_check_input = check_input_checks_pair_labels(ix)
     for cls in classes:
         for m in PUBLIC:
             ev = events(ix, cls, m)
@@ -128,7 +149,15 @@ def method_table(ix, classes):
             validations = []
             calib_before_validate = None
             pre_effects = []
+            labels_direct = False
+            y_param = None
+            found = ix.method(cls, m)
+            if found is not None:
+                names = [a.arg for a in found[1].args.args]
+                y_param = next((a for a in names if a in ('y', 'y_valid')), None)
             for e in ev:
+                if e[0] == 'labels' and y_param is not None and e[1] == y_param:
+                    labels_direct = True
                 if e[0] == 'guard' and guard_first is None and not validations:
                     guard_first = e[1]
                 elif e[0] == 'validate':
@@ -137,6 +166,8 @@ def method_table(ix, classes):
                     calib_before_validate = not validations
                 elif e[0] == 'effect' and guard_first is None and not validations:
                     pre_effects.append(e[1])
+            labels_via = via_check_input and any(v['has_y'] and v['type_of_inputs'] == 'tuples' and v['tuple_size'] == 2 for v in validations)
             rows.append({'cls': cls, 'method': m, 'guard': guard_first, 'pre_effects': pre_effects,
-                         'validations': validations, 'calib_first': calib_before_validate})
+                         'validations': validations, 'calib_first': calib_before_validate,
+                         'checks_pair_labels': bool(labels_direct or labels_via)})
     return rows
